@@ -667,15 +667,19 @@ impl OptimizedDictionaryCompressor {
                                 continue;
                             }
 
-                            // Extend the match as far as possible
+                            // Extend the match as far as possible. The decompressor resolves a back-reference
+                            // against its own output (= data[..pos]), not against the training text, so the
+                            // match is measured inside `data`; the training text only proposes candidates.
                             let max_possible = (data.len() - pos).min(self.max_match_length);
-                            let mut match_length = self.min_match_length;
+                            let mut match_length = 0;
 
                             while match_length < max_possible
-                                && suffix_pos + match_length < self.text.len()
-                                && self.text[suffix_pos + match_length] == data[pos + match_length]
+                                && data[suffix_pos + match_length] == data[pos + match_length]
                             {
                                 match_length += 1;
+                            }
+                            if match_length < self.min_match_length {
+                                continue;
                             }
 
                             // Update best match if this is better and meets minimum length requirement
@@ -708,16 +712,17 @@ impl OptimizedDictionaryCompressor {
                                     continue;
                                 }
 
-                                // Extend the match as far as possible
+                                // Extend the match as far as possible (measured inside `data`, see above)
                                 let max_possible = (data.len() - pos).min(self.max_match_length);
-                                let mut match_length = self.min_match_length;
+                                let mut match_length = 0;
 
                                 while match_length < max_possible
-                                    && suffix_pos + match_length < self.text.len()
-                                    && self.text[suffix_pos + match_length]
-                                        == data[pos + match_length]
+                                    && data[suffix_pos + match_length] == data[pos + match_length]
                                 {
                                     match_length += 1;
+                                }
+                                if match_length < self.min_match_length {
+                                    continue;
                                 }
 
                                 // Update best match if this is better and meets minimum length requirement
